@@ -744,11 +744,19 @@ Definition Extract (q : doc) : res doc := extract_process (S (vsize (VDoc q))) q
 
 (* ------------------------------------------------------------------ *)
 (* THE instantiation point of the matcher.  Until Model/Match.v is merged the
-   matcher is a stub; `matcher_stubbed` makes the runner print UNMODELLED for
-   the syntactic class of updates that can reach the matcher, exactly as the
-   Go family does (harness/fam_apply.go: matcherModelled = false). *)
+   matcher is a stub.  To plug the real matcher in:
+     1. import Match.v above and set   the_matcher := Match
+     2. set                             matcher_stubbed := false
+     3. set  matcherModelled = true  in harness/fam_apply.go
+   `matcher_stubbed` makes the runner (Model/RunApply.v) print UNMODELLED for
+   the syntactic class of updates that can reach the matcher ($pull with a
+   document argument, non-empty arrayFilters), exactly as the Go family does.
+   Every theorem of Proofs/ApplyProofs.v is stated for an arbitrary matcher,
+   so nothing else changes. *)
 
 Definition stub_match (_ _ : doc) : res bool := Unmodelled.
+
+Definition the_matcher : doc -> doc -> res bool := stub_match.
 Definition matcher_stubbed : bool := true.
 
-Definition Apply := apply_with stub_match.
+Definition Apply := apply_with the_matcher.
